@@ -8,10 +8,16 @@
 (*   WorkerAvailable  workerPool.Get (server_workerpool.go)                *)
 (*   TakeOf           server.go requestBufTake: every packet takes         *)
 (*                    max(packet length, RequestBufSize)                   *)
+(*   HeldAfterAbort   a wait for request memory that is aborted (the       *)
+(*                    connection's context was cancelled) never acquired   *)
+(*                    anything: nothing is given back, the accounted       *)
+(*                    memory is unchanged (server.go receiveLoopImpl sets  *)
+(*                    hctx.reqTaken only after acquireRequestSema)         *)
 (***************************************************************************)
 EXTENDS Integers
 
 MemAdmits(held, n, limit) == held + n <= limit
 WorkerAvailable(created, free, maxWorkers) == free > 0 \/ created < maxWorkers
 TakeOf(len, bufSize) == IF len > bufSize THEN len ELSE bufSize
+HeldAfterAbort(held, n) == held
 =============================================================================
